@@ -39,6 +39,10 @@ Definition wrap64 (a : N) : N := a mod U64.
 Definition wrap32 (a : N) : N := a mod U32.
 Definition div_ceil (a b : N) : N := (a + b - 1) / b.   (* b > 0 at every use *)
 
+(* N-indexed sequence start, start+1, ..., of n elements *)
+Fixpoint nseq (n : nat) (start : N) : list N :=
+  match n with O => [] | S n' => start :: nseq n' (start + 1) end.
+
 Definition obind {A B} (o : option A) (f : A -> option B) : option B :=
   match o with Some a => f a | None => None end.
 Notation "'let?' x ':=' o 'in' k" := (obind o (fun x => k))
@@ -62,4 +66,28 @@ Proof.
     pose proof (N.mod_lt (a + b - 1) b ltac:(lia)) as L.
     set (q := (a + b - 1) / b) in *. set (r := (a + b - 1) mod b) in *.
     split; nia.
+Qed.
+
+Lemma nseq_In n : forall s y, In y (nseq n s) <-> s <= y < s + N.of_nat n.
+Proof.
+  induction n as [|n IH]; intros s y; cbn [nseq].
+  - split; [intros []|lia].
+  - cbn [In]. rewrite IH. lia.
+Qed.
+Lemma nseq_length n s : length (nseq n s) = n.
+Proof. revert s; induction n as [|n IH]; intros s; cbn [nseq length]; [reflexivity|]. rewrite IH. reflexivity. Qed.
+Lemma nseq_seq n : forall s, nseq n (N.of_nat s) = map N.of_nat (seq s n).
+Proof.
+  induction n as [|n IH]; intros s; cbn [nseq seq map]; [reflexivity|].
+  f_equal. replace (N.of_nat s + 1) with (N.of_nat (S s)) by lia. apply IH.
+Qed.
+Lemma nseq_nth n : forall s k, (k < n)%nat -> nth k (nseq n s) 0 = s + N.of_nat k.
+Proof.
+  induction n as [|n IH]; intros s k Hk; [lia|]. cbn [nseq].
+  destruct k as [|k]; cbn [nth]; [lia|]. rewrite IH by lia. lia.
+Qed.
+Lemma nseq_nth_error n : forall s k, (k < n)%nat -> nth_error (nseq n s) k = Some (s + N.of_nat k).
+Proof.
+  induction n as [|n IH]; intros s k Hk; [lia|]. cbn [nseq].
+  destruct k as [|k]; cbn [nth_error]; [f_equal; lia|]. rewrite IH by lia. f_equal. lia.
 Qed.
